@@ -10,6 +10,7 @@ import typing
 
 from snakeoil.compatibility import IGNORED_EXCEPTIONS
 from snakeoil.iterables import expandable_chain
+from snakeoil.klass import cached_hash
 from snakeoil.sequences import iflatten_instance
 
 from ..restrictions import boolean, packages, restriction, values
@@ -271,8 +272,12 @@ class DepSet(boolean.AndRestriction, caching=False):
     def __str__(self):
         return stringify_boolean(self)
 
-    # parent __hash__() isn't inherited when __eq__() is defined in the child class
-    __hash__ = boolean.AndRestriction.__hash__
+    # parent __hash__() isn't inherited when __eq__() is defined in the child class;
+    # __eq__ compares the restrictions as a set, so the hash must not depend on
+    # their order or multiplicity
+    @cached_hash
+    def __hash__(self):
+        return hash(frozenset(self.restrictions))
 
     def __eq__(self, other):
         if isinstance(other, DepSet):
